@@ -270,7 +270,9 @@ CHECKS = {
              "and reported-free-space override; the harness observes the roots actually visited (the shuffle), the write sizes, the "
              "error class, Get afterwards, every file below the roots (length+MD5) and created/closed handles, and every line is "
              "compared with the extracted model run on the observed candidate order; the property is also evaluated directly on "
-             "the implementation's observations; 60 small cases are re-evaluated with vm_compute against the extracted code.",
+             "the implementation's observations; 60 small cases are re-evaluated with vm_compute against the extracted code. "
+             "Also: aborted uploads (a source reader that fails or a caller that cancels after 0..len-1 bytes, old value or fresh key, inside or "
+             "outside a transaction) through the inline AND the gRPC client: the call fails, the key keeps what it had, nobody reads partial content.",
         design="7/C10", technique="Coq proof over an executable fault model (+ refutation witnesses for the unrepaired code) + "
                                   "fault-injection correspondence run",
         note="File system faults are injected (a faulted Write stores min(capacity-offset, keep) bytes and returns ENOSPC), not "
